@@ -311,6 +311,8 @@ def main(tier, seed):
         'Switch(default=) covers "no case matched" only (documented); the failure of the value spec of the matching case propagates',
         'defaults that are instances of dict / list subclasses (OrderedDict ...) are outside the universe: argument mode '
         'rebuilds exact builtin containers only, by design',
+        'one-shot iterators as Check(one_of= / type= / validate=) arguments are outside the contract (the documentation '
+        'means a re-iterable collection) and outside the universe',
         'validators of Check are not part of the call-log law (the documentation does not order or short-circuit them)',
         'the Match wrapper is only at the root, so the C08 mode leak through chain_child is not involved',
         'strings from {"", a, b, aa, ab, ba, bb}; TLC, the Json community module and the codec are trusted']
